@@ -74,6 +74,7 @@ type graphCase struct {
 	Split     map[string]string `json:"split_outputs,omitempty"`
 	DelaySeed uint64   `json:"delay_seed"`
 	DelayMax  int      `json:"delay_max_us"`
+	DelayOnly string   `json:"delay_only_at,omitempty"`
 	Race      bool     `json:"race_build"`
 }
 
@@ -233,6 +234,9 @@ func genGraph(r *core.Rand, race bool) *graphCase {
 	}
 	gc.DelaySeed = r.Uint64() % 1000000
 	gc.DelayMax = []int{0, 200, 3000, 30000}[r.Intn(4)]
+	// asymmetric schedules: a slow writer (lags the main loop by several generations, token bounces),
+	// a slow main loop (writer always waiting), or delays everywhere
+	gc.DelayOnly = []string{"", "", "write-begin,write-end,token-recv", "run-begin,links-begin,links-end,writer-spawn", "purge,token-sent"}[r.Intn(5)]
 	return gc
 }
 
@@ -454,6 +458,9 @@ func owsimCase(c *core.Ctx, race bool) {
 	cmd.Env = append(os.Environ(), "OW_SHIM_OPLOG="+oplogPath)
 	if gc.DelayMax > 0 {
 		cmd.Env = append(cmd.Env, fmt.Sprintf("OW_SIM_DELAYS=%d:%d", gc.DelaySeed, gc.DelayMax), fmt.Sprintf("OW_SHIM_DELAYS=%d:%d", gc.DelaySeed, gc.DelayMax/10+1))
+		if gc.DelayOnly != "" {
+			cmd.Env = append(cmd.Env, "OW_SIM_DELAY_ONLY="+gc.DelayOnly)
+		}
 	}
 	if race {
 		cmd.Env = append(cmd.Env, "GORACE=halt_on_error=1 exitcode=66")
@@ -720,8 +727,6 @@ func checkOwsimTrace(c *core.Ctx, gc *graphCase, path string) {
 		}
 	}
 	c.Count("token_bounces_observed", float64(bounces))
-	c.Count("interleaving_hash/"+fmt.Sprintf("%x", core.HashStr(strings.Join(sig, ","))&0xffffff), 0)
-	c.Res.Class = "" // set by caller
 	c.Tag("interleaving:" + fmt.Sprintf("%x", core.HashStr(strings.Join(sig, ","))&0xfffff))
 }
 
